@@ -39,6 +39,8 @@ type feState struct {
 	calls     []feCall
 	stores    []feStore
 	free      []condFact // undecided conditions taken on this path
+	mem       map[*ssa.Alloc]feVal // last value stored into local cells on this path
+	loads     map[*ssa.UnOp]feVal  // value a load of a local cell observed on this path
 }
 
 type feStore struct {
@@ -80,6 +82,14 @@ func (s *feState) clone() *feState {
 	n.calls = append([]feCall{}, s.calls...)
 	n.stores = append([]feStore{}, s.stores...)
 	n.free = append([]condFact{}, s.free...)
+	n.mem = map[*ssa.Alloc]feVal{}
+	for k, v := range s.mem {
+		n.mem[k] = v
+	}
+	n.loads = map[*ssa.UnOp]feVal{}
+	for k, v := range s.loads {
+		n.loads[k] = v
+	}
 	return n
 }
 
@@ -91,7 +101,7 @@ func (w *feWalker) Run() []*feEnd {
 	if len(w.Fn.Blocks) == 0 {
 		return nil
 	}
-	st := &feState{cur: w.Fn.Blocks[0], phis: map[*ssa.Phi]constant.Value{}, phiSrc: map[*ssa.Phi]ssa.Value{}, visits: map[*ssa.BasicBlock]int{}}
+	st := &feState{cur: w.Fn.Blocks[0], phis: map[*ssa.Phi]constant.Value{}, phiSrc: map[*ssa.Phi]ssa.Value{}, visits: map[*ssa.BasicBlock]int{}, mem: map[*ssa.Alloc]feVal{}, loads: map[*ssa.UnOp]feVal{}}
 	w.walk(st)
 	return w.Ends
 }
@@ -101,7 +111,7 @@ func (w *feWalker) RunFrom(cur, prev *ssa.BasicBlock) []*feEnd {
 	if w.MaxPath == 0 {
 		w.MaxPath = 4096
 	}
-	st := &feState{cur: cur, prev: prev, phis: map[*ssa.Phi]constant.Value{}, phiSrc: map[*ssa.Phi]ssa.Value{}, visits: map[*ssa.BasicBlock]int{}}
+	st := &feState{cur: cur, prev: prev, phis: map[*ssa.Phi]constant.Value{}, phiSrc: map[*ssa.Phi]ssa.Value{}, visits: map[*ssa.BasicBlock]int{}, mem: map[*ssa.Alloc]feVal{}, loads: map[*ssa.UnOp]feVal{}}
 	w.walk(st)
 	return w.Ends
 }
@@ -150,7 +160,21 @@ func (w *feWalker) walk(st *feState) {
 		for _, in := range b.Instrs {
 			switch x := in.(type) {
 			case *ssa.Store:
-				st.stores = append(st.stores, feStore{x, w.evalVal(st, x.Val)})
+				sv := w.evalVal(st, x.Val)
+				st.stores = append(st.stores, feStore{x, sv})
+				if al, ok := x.Addr.(*ssa.Alloc); ok {
+					st.mem[al] = sv
+				}
+			case *ssa.UnOp:
+				if x.Op == token.MUL {
+					if al, ok := x.X.(*ssa.Alloc); ok {
+						if mv, ok := st.mem[al]; ok {
+							st.loads[x] = mv
+						} else {
+							delete(st.loads, x)
+						}
+					}
+				}
 			case ssa.CallInstruction:
 				fc := feCall{Call: x}
 				for _, a := range x.Common().Args {
@@ -203,6 +227,11 @@ func (w *feWalker) walk(st *feState) {
 }
 
 func (w *feWalker) evalVal(st *feState, v ssa.Value) feVal {
+	if u, ok := v.(*ssa.UnOp); ok {
+		if lv, ok := st.loads[u]; ok {
+			return lv
+		}
+	}
 	out := feVal{V: v}
 	if phi, ok := v.(*ssa.Phi); ok {
 		if src, ok := st.phiSrc[phi]; ok {
@@ -224,6 +253,11 @@ func (w *feWalker) eval(st *feState, v ssa.Value) (constant.Value, bool) {
 	for _, f := range st.free {
 		if f.Cond == v {
 			return constant.MakeBool(f.Truth), true
+		}
+	}
+	if u, ok := v.(*ssa.UnOp); ok {
+		if lv, ok := st.loads[u]; ok {
+			return lv.C, lv.Known
 		}
 	}
 	switch x := v.(type) {
